@@ -4,7 +4,7 @@ import numpy as np
 
 from harness.common import exc_class, coq_bits, coq_list
 from harness.lat_planar import (hexrow, hexrows, cmp_matrix, code_conditions, ctor_stream, distance_search, c08_sizes,
-                                idx_s, sizes_upto, plain_int_tuple)
+                                idx_s, sizes_upto, plain_int_tuple, guarded)
 
 FAMILY = 'toric'
 
@@ -30,85 +30,89 @@ def check_c07(ctx):
     out = ctx.model('latpt', ['tcode %d %d' % s for s in sizes])
     kern = []
     for size, reply in zip(sizes, out):
-        R, C = size
-        code = ToricCode(R, C)
-        S, X, Z = code.stabilizers, code.logical_xs, code.logical_zs
-        f = reply.split(' ')
-        if len(f) == 5:
-            ctx.cmp(fam + ' n_k_d', {'size': list(size)}, ','.join(str(v) for v in code.n_k_d), f[0])
-            cmp_matrix(ctx, fam + ' stabilizers', size, S, f[1])
-            cmp_matrix(ctx, fam + ' logical_xs', size, X, f[2])
-            cmp_matrix(ctx, fam + ' logical_zs', size, Z, f[3])
-        else:
-            ctx.cmp(fam + ' tcode', {'size': list(size)}, '<5 fields>', reply[:200])
-        if code.label != 'Toric %dx%d' % size or repr(code) != 'ToricCode(%d, %d)' % size or code.size != size \
-                or code.shape != (2, R, C):
-            ctx.violation(fam + '-label', 'label / repr / size / shape do not name the lattice size',
-                          {'family': fam, 'size': list(size), 'label': code.label, 'repr': repr(code)})
-        code_conditions(ctx, fam, size, code, S, X, Z, 2)
-        # index -> qubit is a bijection onto range(n)
-        n = int(code.n_k_d[0])
-        seen = {}
-        for s in all_indices(R, C):
-            b = code.new_pauli().site('X', s).to_bsf()
-            nz = np.nonzero(b)[0]
-            if len(b) != 2 * n or len(nz) != 1 or nz[0] >= n or int(nz[0]) in seen:
-                ctx.violation(fam + '-flatten', 'site index -> qubit is not a bijection onto range(n)',
-                              {'family': fam, 'size': list(size), 'site': list(s), 'bsf_nonzero': [int(v) for v in nz]})
-                break
-            seen[int(nz[0])] = list(s)
-        else:
-            if sorted(seen) != list(range(n)):
-                ctx.violation(fam + '-flatten', 'sites do not cover range(n)', {'family': fam, 'size': list(size),
-                                                                                'sites': len(seen), 'n': n})
-        ctx.count((fam, size), R != C or min(R, C) == 2, fam + '-size',
-                  {'family': fam, 'size': list(size), 'n_k_d': list(code.n_k_d), 'stabilizer[0]': hexrow(S[0])}
-                  if size == (2, 3) else None)
-        if n <= 60 and (size in ((2, 2), (2, 5), (4, 3)) or rng.random() < 0.08) and len(kern) < 8:
-            kern.append((size, S, X, Z))
+        def body(size=size, reply=reply):
+            R, C = size
+            code = ToricCode(R, C)
+            S, X, Z = code.stabilizers, code.logical_xs, code.logical_zs
+            f = reply.split(' ')
+            if len(f) == 5:
+                ctx.cmp(fam + ' n_k_d', {'size': list(size)}, ','.join(str(v) for v in code.n_k_d), f[0])
+                cmp_matrix(ctx, fam + ' stabilizers', size, S, f[1])
+                cmp_matrix(ctx, fam + ' logical_xs', size, X, f[2])
+                cmp_matrix(ctx, fam + ' logical_zs', size, Z, f[3])
+            else:
+                ctx.cmp(fam + ' tcode', {'size': list(size)}, '<5 fields>', reply[:200])
+            if code.label != 'Toric %dx%d' % size or repr(code) != 'ToricCode(%d, %d)' % size or code.size != size \
+                    or code.shape != (2, R, C):
+                ctx.violation(fam + '-label', 'label / repr / size / shape do not name the lattice size',
+                              {'family': fam, 'size': list(size), 'label': code.label, 'repr': repr(code)})
+            code_conditions(ctx, fam, size, code, S, X, Z, 2)
+            # index -> qubit is a bijection onto range(n)
+            n = int(code.n_k_d[0])
+            seen = {}
+            for s in all_indices(R, C):
+                b = code.new_pauli().site('X', s).to_bsf()
+                nz = np.nonzero(b)[0]
+                if len(b) != 2 * n or len(nz) != 1 or nz[0] >= n or int(nz[0]) in seen:
+                    ctx.violation(fam + '-flatten', 'site index -> qubit is not a bijection onto range(n)',
+                                  {'family': fam, 'size': list(size), 'site': list(s), 'bsf_nonzero': [int(v) for v in nz]})
+                    break
+                seen[int(nz[0])] = list(s)
+            else:
+                if sorted(seen) != list(range(n)):
+                    ctx.violation(fam + '-flatten', 'sites do not cover range(n)', {'family': fam, 'size': list(size),
+                                                                                    'sites': len(seen), 'n': n})
+            ctx.count((fam, size), R != C or min(R, C) == 2, fam + '-size',
+                      {'family': fam, 'size': list(size), 'n_k_d': list(code.n_k_d), 'stabilizer[0]': hexrow(S[0])}
+                      if size == (2, 3) else None)
+            if n <= 60 and (size in ((2, 2), (2, 5), (4, 3)) or rng.random() < 0.08) and len(kern) < 8:
+                kern.append((size, S, X, Z))
+        guarded(ctx, fam, size, body)
 
     # ---- site / plaquette / operator / to_bsf on every index of every size <= 7, with wrapping margins ----
     req, exp = [], []
     for size in sizes_upto(2, 7):
-        R, C = size
-        code = ToricCode(R, C)
-        n = int(code.n_k_d[0])
-        grid = [(la, r, c) for la in range(-1, 3) for r in range(-2, R + 2) for c in range(-2, C + 2)]
-        gs = ','.join(idx_s(i) for i in grid)
+        def body(size=size):
+            R, C = size
+            code = ToricCode(R, C)
+            n = int(code.n_k_d[0])
+            grid = [(la, r, c) for la in range(-1, 3) for r in range(-2, R + 2) for c in range(-2, C + 2)]
+            gs = ','.join(idx_s(i) for i in grid)
 
-        def call(f):
-            try:
-                return f()
-            except Exception as e:  # noqa
-                return 'ERR ' + exc_class(e)
-        for op in 'XYZ':
-            got = [call(lambda: hexrow(code.new_pauli().site(op, i).to_bsf())) for i in grid]
-            req.append('tsite %d %d %s %s' % (R, C, op, gs))
-            exp.append((fam + ' site', {'size': list(size), 'op': op}, ','.join(got)))
-        got = [call(lambda: hexrow(code.new_pauli().plaquette(i).to_bsf())) for i in grid]
-        req.append('tplaq %d %d %s' % (R, C, gs))
-        exp.append((fam + ' plaquette', {'size': list(size)}, ','.join(got)))
-        b = np.array([rng.randint(0, 1) for _ in range(2 * n)])
-        p = code.new_pauli(b)
-        got = [call(lambda: p.operator(i)) for i in grid]
-        req.append('top %d %d %d %s %s' % (R, C, 2 * n, hexrow(b), gs))
-        exp.append((fam + ' operator', {'size': list(size), 'bsf': hexrow(b)}, ','.join(got)))
-        if not np.array_equal(p.to_bsf(), b):
-            ctx.violation(fam + '-to_bsf', 'new_pauli(bsf).to_bsf() != bsf', {'family': fam, 'size': list(size), 'bsf': hexrow(b)})
-        for s in all_indices(R, C):
-            one = code.new_pauli().site('X', s).to_bsf()
-            q = int(np.nonzero(one)[0][0]) if one.any() else -1
-            want = 'IXZY'[int(b[q]) + 2 * int(b[n + q])] if 0 <= q < n else '?'
-            wrapped = (s[0] + 2, s[1] - R, s[2] + 2 * C)
-            if p.operator(s) != want or p.operator(wrapped) != want:
-                ctx.violation(fam + '-site-access', 'operator(site) disagrees with the bsf entry that site() toggles',
-                              {'family': fam, 'size': list(size), 'site': list(s), 'bsf': hexrow(b)})
-                break
+            def call(f):
+                try:
+                    return f()
+                except Exception as e:  # noqa
+                    return 'ERR ' + exc_class(e)
             for op in 'XYZ':
-                if code.new_pauli().site(op, wrapped).operator(s) != op:
-                    ctx.violation(fam + '-site-access', 'operator(site) after site(op, site + period) is not op',
-                                  {'family': fam, 'size': list(size), 'site': list(s), 'op': op})
-        ctx.count((fam, 'pauli', size), R != C or min(R, C) == 2, fam + '-pauli-api', n=5 * len(grid))
+                got = [call(lambda: hexrow(code.new_pauli().site(op, i).to_bsf())) for i in grid]
+                req.append('tsite %d %d %s %s' % (R, C, op, gs))
+                exp.append((fam + ' site', {'size': list(size), 'op': op}, ','.join(got)))
+            got = [call(lambda: hexrow(code.new_pauli().plaquette(i).to_bsf())) for i in grid]
+            req.append('tplaq %d %d %s' % (R, C, gs))
+            exp.append((fam + ' plaquette', {'size': list(size)}, ','.join(got)))
+            b = np.array([rng.randint(0, 1) for _ in range(2 * n)])
+            p = code.new_pauli(b)
+            got = [call(lambda: p.operator(i)) for i in grid]
+            req.append('top %d %d %d %s %s' % (R, C, 2 * n, hexrow(b), gs))
+            exp.append((fam + ' operator', {'size': list(size), 'bsf': hexrow(b)}, ','.join(got)))
+            if not np.array_equal(p.to_bsf(), b):
+                ctx.violation(fam + '-to_bsf', 'new_pauli(bsf).to_bsf() != bsf', {'family': fam, 'size': list(size), 'bsf': hexrow(b)})
+            for s in all_indices(R, C):
+                one = code.new_pauli().site('X', s).to_bsf()
+                q = int(np.nonzero(one)[0][0]) if one.any() else -1
+                want = 'IXZY'[int(b[q]) + 2 * int(b[n + q])] if 0 <= q < n else '?'
+                wrapped = (s[0] + 2, s[1] - R, s[2] + 2 * C)
+                if p.operator(s) != want or p.operator(wrapped) != want:
+                    ctx.violation(fam + '-site-access', 'operator(site) disagrees with the bsf entry that site() toggles',
+                                  {'family': fam, 'size': list(size), 'site': list(s), 'bsf': hexrow(b)})
+                    break
+                for op in 'XYZ':
+                    if code.new_pauli().site(op, wrapped).operator(s) != op:
+                        ctx.violation(fam + '-site-access', 'operator(site) after site(op, site + period) is not op',
+                                      {'family': fam, 'size': list(size), 'site': list(s), 'op': op})
+            ctx.count((fam, 'pauli', size), R != C or min(R, C) == 2, fam + '-pauli-api', n=5 * len(grid))
+        guarded(ctx, fam, size, body)
     out = ctx.model('latpt', req)
     for (fn, inp, impl), m in zip(exp, out):
         if impl != m:
@@ -140,125 +144,127 @@ def check_c15(ctx):
     kern = []
     req, exp = [], []
     for size in sizes_upto(2, smax):
-        R, C = size
-        code = ToricCode(R, C)
-        n = int(code.n_k_d[0])
-        S = code.stabilizers
-        rep = {'family': fam, 'size': list(size)}
-        real = all_indices(R, C)
-        # -- plaquette operators have the documented support; syndrome bit i maps back to plaquette i
-        row_of = {}
-        for p in real:
-            pp = code.new_pauli().plaquette(p)
-            letter = 'Z' if p[0] == 0 else 'X'
-            sup = documented_support(p, R, C)
-            if any(pp.operator(s) != (letter if s in sup else 'I') for s in real):
-                ctx.violation(fam + '-plaquette-support', 'plaquette operator does not have the documented support',
-                              dict(rep, plaquette=list(p)))
-            row_of[p] = hexrow(pp.to_bsf())
-            if hexrow(code.new_pauli().plaquette((p[0] - 2, p[1] + R, p[2] - 3 * C)).to_bsf()) != row_of[p]:
-                ctx.violation(fam + '-plaquette-support', 'plaquette index is not taken modulo the lattice shape',
-                              dict(rep, plaquette=list(p)))
-        if len(S) != len(real):
-            ctx.violation(fam + '-syndrome-map', 'number of stabilizers != number of plaquettes', rep)
-            continue
-        pidx = []
-        for i in range(len(S)):
-            e = np.zeros(len(S), dtype=int)
-            e[i] = 1
-            g = [tuple(int(v) for v in t) for t in code.syndrome_to_plaquette_indices(e)]
-            if len(g) != 1 or g[0] not in row_of or row_of[g[0]] != hexrow(S[i]):
-                ctx.violation(fam + '-syndrome-map', 'syndrome bit i does not map back to the plaquette of stabilizer i',
-                              dict(rep, bit=i, got=[list(t) for t in g]))
-                pidx.append(None)
-            else:
-                pidx.append(g[0])
-        if None in pidx:
-            continue
-        for _ in range(3):
-            syn = np.array([rng.randint(0, 1) for _ in range(len(S))])
-            got = sorted(tuple(int(v) for v in t) for t in code.syndrome_to_plaquette_indices(syn))
-            req.append('tsynd %d %d %s' % (R, C, ''.join(str(int(v)) for v in syn)))
-            exp.append((fam + ' syndrome_to_plaquette_indices', dict(rep, syndrome=''.join(str(int(v)) for v in syn)),
-                        ','.join(idx_s(t) for t in got) if got else '-', 'sortidx'))
-            if set(got) != {pidx[i] for i in range(len(S)) if syn[i]}:
-                ctx.violation(fam + '-syndrome-map', 'syndrome_to_plaquette_indices is not the set of flagged plaquettes', rep)
-        # -- all ordered same-lattice pairs; each also once with indices shifted by multiples of the period
-        Sx, Sz = S[:, :n].astype(np.int64), S[:, n:].astype(np.int64)
-        for la in (0, 1):
-            nodes = [p for p in real if p[0] == la]
-            pairs = []
-            for a in nodes:
-                for b in nodes:
-                    pairs.append((a, b, a, b))
-                    k = [rng.randint(-2, 2) for _ in range(6)]
-                    pairs.append(((a[0] + 2 * k[0], a[1] + R * k[1], a[2] + C * k[2]),
-                                  (b[0] + 2 * k[3], b[1] + R * k[4], b[2] + C * k[5]), a, b))
-            bsfs, got = [], []
-            for (a, b, a0, b0) in pairs:
+        def body(size=size):
+            R, C = size
+            code = ToricCode(R, C)
+            n = int(code.n_k_d[0])
+            S = code.stabilizers
+            rep = {'family': fam, 'size': list(size)}
+            real = all_indices(R, C)
+            # -- plaquette operators have the documented support; syndrome bit i maps back to plaquette i
+            row_of = {}
+            for p in real:
+                pp = code.new_pauli().plaquette(p)
+                letter = 'Z' if p[0] == 0 else 'X'
+                sup = documented_support(p, R, C)
+                if any(pp.operator(s) != (letter if s in sup else 'I') for s in real):
+                    ctx.violation(fam + '-plaquette-support', 'plaquette operator does not have the documented support',
+                                  dict(rep, plaquette=list(p)))
+                row_of[p] = hexrow(pp.to_bsf())
+                if hexrow(code.new_pauli().plaquette((p[0] - 2, p[1] + R, p[2] - 3 * C)).to_bsf()) != row_of[p]:
+                    ctx.violation(fam + '-plaquette-support', 'plaquette index is not taken modulo the lattice shape',
+                                  dict(rep, plaquette=list(p)))
+            if len(S) != len(real):
+                ctx.violation(fam + '-syndrome-map', 'number of stabilizers != number of plaquettes', rep)
+                return
+            pidx = []
+            for i in range(len(S)):
+                e = np.zeros(len(S), dtype=int)
+                e[i] = 1
+                g = [tuple(int(v) for v in t) for t in code.syndrome_to_plaquette_indices(e)]
+                if len(g) != 1 or g[0] not in row_of or row_of[g[0]] != hexrow(S[i]):
+                    ctx.violation(fam + '-syndrome-map', 'syndrome bit i does not map back to the plaquette of stabilizer i',
+                                  dict(rep, bit=i, got=[list(t) for t in g]))
+                    pidx.append(None)
+                else:
+                    pidx.append(g[0])
+            if None in pidx:
+                return
+            for _ in range(3):
+                syn = np.array([rng.randint(0, 1) for _ in range(len(S))])
+                got = sorted(tuple(int(v) for v in t) for t in code.syndrome_to_plaquette_indices(syn))
+                req.append('tsynd %d %d %s' % (R, C, ''.join(str(int(v)) for v in syn)))
+                exp.append((fam + ' syndrome_to_plaquette_indices', dict(rep, syndrome=''.join(str(int(v)) for v in syn)),
+                            ','.join(idx_s(t) for t in got) if got else '-', 'sortidx'))
+                if set(got) != {pidx[i] for i in range(len(S)) if syn[i]}:
+                    ctx.violation(fam + '-syndrome-map', 'syndrome_to_plaquette_indices is not the set of flagged plaquettes', rep)
+            # -- all ordered same-lattice pairs; each also once with indices shifted by multiples of the period
+            Sx, Sz = S[:, :n].astype(np.int64), S[:, n:].astype(np.int64)
+            for la in (0, 1):
+                nodes = [p for p in real if p[0] == la]
+                pairs = []
+                for a in nodes:
+                    for b in nodes:
+                        pairs.append((a, b, a, b))
+                        k = [rng.randint(-2, 2) for _ in range(6)]
+                        pairs.append(((a[0] + 2 * k[0], a[1] + R * k[1], a[2] + C * k[2]),
+                                      (b[0] + 2 * k[3], b[1] + R * k[4], b[2] + C * k[5]), a, b))
+                bsfs, got = [], []
+                for (a, b, a0, b0) in pairs:
+                    try:
+                        pb = code.new_pauli().path(a, b).to_bsf()
+                        t = code.translation(a, b)
+                        dist = ToricMWPMDecoder.distance(code, a, b)
+                        got.append('%s;%d:%d;%d' % (hexrow(pb), t[0], t[1], dist))
+                        bsfs.append(pb)
+                    except Exception as e:  # noqa
+                        got.append('E' if isinstance(e, IndexError) else 'ERR ' + exc_class(e))
+                        bsfs.append(np.zeros(2 * n, dtype=int))
+                        ctx.violation(fam + '-path-raises', 'path/translation/distance raises on a same-lattice pair',
+                                      dict(rep, a=list(a), b=list(b), error=exc_class(e)))
+                for k0 in range(0, len(pairs), 400):
+                    chunk = pairs[k0:k0 + 400]
+                    req.append('tpath %d %d %s' % (R, C, ','.join(idx_s(a) + '>' + idx_s(b) for a, b, _, _ in chunk)))
+                    exp.append((fam + ' path;translation;distance', dict(rep, pairs=[[list(a), list(b)] for a, b, _, _ in chunk]),
+                                ','.join(got[k0:k0 + 400]), 'pairs'))
+                P = np.array(bsfs, dtype=np.int64)
+                syn = (P[:, :n] @ Sz.T + P[:, n:] @ Sx.T) % 2
+                wts = np.count_nonzero(P[:, :n] | P[:, n:], axis=1)
+                for j, (a, b, a0, b0) in enumerate(pairs):
+                    want = np.array([1 if ((pidx[i] == a0) != (pidx[i] == b0)) else 0 for i in range(len(S))])
+                    sr, sc = (b0[1] - a0[1]) % R, (b0[2] - a0[2]) % C
+                    tie = (R % 2 == 0 and sr == R // 2) or (C % 2 == 0 and sc == C // 2)
+                    nontriv = (a0[1] != b0[1] and a0[2] != b0[2]) or tie or (a, b) != (a0, b0)
+                    ctx.count((fam, size, a, b), nontriv, fam + ('-pair' if (a, b) == (a0, b0) else '-pair-wrapped'),
+                              dict(rep, a=list(a), b=list(b), path=got[j]) if (size, a, b) == ((4, 3), (0, 0, 0), (0, 2, 2)) else None)
+                    if got[j].startswith('E'):
+                        continue
+                    if not np.array_equal(syn[j], want):
+                        ctx.violation(fam + '-path-syndrome', 'path(a,b) does not anticommute with exactly its endpoints',
+                                      dict(rep, a=list(a), b=list(b), syndrome=''.join(str(int(v)) for v in syn[j]),
+                                           want=''.join(str(int(v)) for v in want)))
+                    t = tuple(int(v) for v in code.translation(a, b))
+                    t2 = tuple(int(v) for v in code.translation(b, a))
+                    dist = abs(t[0]) + abs(t[1])
+                    if a0 == b0 and P[j].any():
+                        ctx.violation(fam + '-path-identity', 'path(a,a) is not the identity', dict(rep, a=list(a)))
+                    if wts[j] != dist or ToricMWPMDecoder.distance(code, a, b) != dist:
+                        ctx.violation(fam + '-path-weight', 'weight of path != decoder distance',
+                                      dict(rep, a=list(a), b=list(b), weight=int(wts[j]), distance=int(dist)))
+                    if (abs(t[0]), abs(t[1])) != (abs(t2[0]), abs(t2[1])):
+                        ctx.violation(fam + '-translation-symmetry', 'translation(a,b) and translation(b,a) differ in length',
+                                      dict(rep, a=list(a), b=list(b), ab=list(t), ba=list(t2)))
+                    if ((a0[1] + t[0]) % R, (a0[2] + t[1]) % C) != (b0[1], b0[2]):
+                        ctx.violation(fam + '-translation-leads', 'translation(a,b) does not lead from a to b modulo the period',
+                                      dict(rep, a=list(a), b=list(b), translation=list(t)))
+                    if abs(t[0]) != min(sr, R - sr) or abs(t[1]) != min(sc, C - sc):
+                        ctx.violation(fam + '-translation-shortest', 'translation is not the shortest one around the torus',
+                                      dict(rep, a=list(a), b=list(b), translation=list(t)))
+                    if n <= 40 and len(kern) < 150 and rng.random() < 0.01:
+                        kern.append((size, a, b, P[j].tolist()))
+            # different lattices: IndexError (model: None)
+            bad = [((0, 0, 0), (1, 0, 0)), ((1, 1, 1), (0, 1, 1)), ((2, 0, 0), (3, 1, 1)), ((-1, 0, 0), (4, 0, 1))]
+            got = []
+            for (a, b) in bad:
                 try:
-                    pb = code.new_pauli().path(a, b).to_bsf()
-                    t = code.translation(a, b)
-                    dist = ToricMWPMDecoder.distance(code, a, b)
-                    got.append('%s;%d:%d;%d' % (hexrow(pb), t[0], t[1], dist))
-                    bsfs.append(pb)
-                except Exception as e:  # noqa
-                    got.append('E' if isinstance(e, IndexError) else 'ERR ' + exc_class(e))
-                    bsfs.append(np.zeros(2 * n, dtype=int))
-                    ctx.violation(fam + '-path-raises', 'path/translation/distance raises on a same-lattice pair',
-                                  dict(rep, a=list(a), b=list(b), error=exc_class(e)))
-            for k0 in range(0, len(pairs), 400):
-                chunk = pairs[k0:k0 + 400]
-                req.append('tpath %d %d %s' % (R, C, ','.join(idx_s(a) + '>' + idx_s(b) for a, b, _, _ in chunk)))
-                exp.append((fam + ' path;translation;distance', dict(rep, pairs=[[list(a), list(b)] for a, b, _, _ in chunk]),
-                            ','.join(got[k0:k0 + 400]), 'pairs'))
-            P = np.array(bsfs, dtype=np.int64)
-            syn = (P[:, :n] @ Sz.T + P[:, n:] @ Sx.T) % 2
-            wts = np.count_nonzero(P[:, :n] | P[:, n:], axis=1)
-            for j, (a, b, a0, b0) in enumerate(pairs):
-                want = np.array([1 if ((pidx[i] == a0) != (pidx[i] == b0)) else 0 for i in range(len(S))])
-                sr, sc = (b0[1] - a0[1]) % R, (b0[2] - a0[2]) % C
-                tie = (R % 2 == 0 and sr == R // 2) or (C % 2 == 0 and sc == C // 2)
-                nontriv = (a0[1] != b0[1] and a0[2] != b0[2]) or tie or (a, b) != (a0, b0)
-                ctx.count((fam, size, a, b), nontriv, fam + ('-pair' if (a, b) == (a0, b0) else '-pair-wrapped'),
-                          dict(rep, a=list(a), b=list(b), path=got[j]) if (size, a, b) == ((4, 3), (0, 0, 0), (0, 2, 2)) else None)
-                if got[j].startswith('E'):
-                    continue
-                if not np.array_equal(syn[j], want):
-                    ctx.violation(fam + '-path-syndrome', 'path(a,b) does not anticommute with exactly its endpoints',
-                                  dict(rep, a=list(a), b=list(b), syndrome=''.join(str(int(v)) for v in syn[j]),
-                                       want=''.join(str(int(v)) for v in want)))
-                t = tuple(int(v) for v in code.translation(a, b))
-                t2 = tuple(int(v) for v in code.translation(b, a))
-                dist = abs(t[0]) + abs(t[1])
-                if a0 == b0 and P[j].any():
-                    ctx.violation(fam + '-path-identity', 'path(a,a) is not the identity', dict(rep, a=list(a)))
-                if wts[j] != dist or ToricMWPMDecoder.distance(code, a, b) != dist:
-                    ctx.violation(fam + '-path-weight', 'weight of path != decoder distance',
-                                  dict(rep, a=list(a), b=list(b), weight=int(wts[j]), distance=int(dist)))
-                if (abs(t[0]), abs(t[1])) != (abs(t2[0]), abs(t2[1])):
-                    ctx.violation(fam + '-translation-symmetry', 'translation(a,b) and translation(b,a) differ in length',
-                                  dict(rep, a=list(a), b=list(b), ab=list(t), ba=list(t2)))
-                if ((a0[1] + t[0]) % R, (a0[2] + t[1]) % C) != (b0[1], b0[2]):
-                    ctx.violation(fam + '-translation-leads', 'translation(a,b) does not lead from a to b modulo the period',
-                                  dict(rep, a=list(a), b=list(b), translation=list(t)))
-                if abs(t[0]) != min(sr, R - sr) or abs(t[1]) != min(sc, C - sc):
-                    ctx.violation(fam + '-translation-shortest', 'translation is not the shortest one around the torus',
-                                  dict(rep, a=list(a), b=list(b), translation=list(t)))
-                if n <= 40 and len(kern) < 150 and rng.random() < 0.01:
-                    kern.append((size, a, b, P[j].tolist()))
-        # different lattices: IndexError (model: None)
-        bad = [((0, 0, 0), (1, 0, 0)), ((1, 1, 1), (0, 1, 1)), ((2, 0, 0), (3, 1, 1)), ((-1, 0, 0), (4, 0, 1))]
-        got = []
-        for (a, b) in bad:
-            try:
-                code.new_pauli().path(a, b)
-                got.append('accepted')
-            except IndexError:
-                got.append('E')
-            ctx.count((fam, size, a, b, 'bad'), True, fam + '-pair-invalid')
-        req.append('tpath %d %d %s' % (R, C, ','.join(idx_s(a) + '>' + idx_s(b) for a, b in bad)))
-        exp.append((fam + ' path (invalid pair)', rep, ','.join(got), None))
+                    code.new_pauli().path(a, b)
+                    got.append('accepted')
+                except IndexError:
+                    got.append('E')
+                ctx.count((fam, size, a, b, 'bad'), True, fam + '-pair-invalid')
+            req.append('tpath %d %d %s' % (R, C, ','.join(idx_s(a) + '>' + idx_s(b) for a, b in bad)))
+            exp.append((fam + ' path (invalid pair)', rep, ','.join(got), None))
+        guarded(ctx, fam, size, body)
     out = ctx.model('latpt', req)
     for (fn, inp, impl, mode), m in zip(exp, out):
         if mode == 'sortidx':
@@ -289,10 +295,12 @@ def check_c08(ctx):
     sizes = [s for s in c08_sizes(ctx, lambda r, c: 2 * r * c, min) if s[0] * s[1] <= 63]
     out = ctx.model('latpt', ['tcode %d %d' % s for s in sizes])
     for size, reply in zip(sizes, out):
-        code = ToricCode(*size)
-        ctx.cmp(fam + ' n_k_d', {'size': list(size)}, ','.join(str(v) for v in code.n_k_d), reply.split(' ')[0])
-        ev = distance_search(ctx, fam, size, code)
-        d = int(code.n_k_d[2])
-        ctx.count((fam, size), size[0] != size[1] or d >= 3, fam + '-distance',
-                  {'family': fam, 'size': list(size), 'n_k_d': list(code.n_k_d), 'supports_enumerated': ev} if size == (3, 4) else None,
-                  n=max(1, ev))
+        def body(size=size, reply=reply):
+            code = ToricCode(*size)
+            ctx.cmp(fam + ' n_k_d', {'size': list(size)}, ','.join(str(v) for v in code.n_k_d), reply.split(' ')[0])
+            ev = distance_search(ctx, fam, size, code)
+            d = int(code.n_k_d[2])
+            ctx.count((fam, size), size[0] != size[1] or d >= 3, fam + '-distance',
+                      {'family': fam, 'size': list(size), 'n_k_d': list(code.n_k_d), 'supports_enumerated': ev} if size == (3, 4) else None,
+                      n=max(1, ev))
+        guarded(ctx, fam, size, body)
